@@ -89,6 +89,20 @@ def run_driver(binary, args, timeout=600, env_extra=None, ok_codes=(0,)):
     return p
 
 
+def events_of(module):
+    """Event names a trace specification knows (Ev("x") actions and Stutter({...}) lists)."""
+    txt = (SPEC / (module + ".tla")).read_text()
+    evs = set(re.findall(r'Ev\("([^"]+)"\)', txt))
+    for m in re.finditer(r'Stutter\(\{([^}]*)\}\)', txt, re.S):
+        evs |= set(re.findall(r'"([^"]+)"', m.group(1)))
+    return sorted(evs)
+
+
+def trace_env(module):
+    """Environment for the driver: only hook points the trace specification knows are logged."""
+    return {"VERIF_EVENTS": ",".join(events_of(module))}
+
+
 class TLCResult:
     def __init__(self):
         self.generated = 0
